@@ -295,14 +295,24 @@ def cmp_oracle(chk, sig, what, case, impl, ref, oscale):
 # ----------------------------------------------------------------------------------------------
 # 1-D entry points
 
+CHECK_1D_COUNT = [0]
+
+
 def check_1d(chk, drv, sp, rng, nrand):
     from pygyro.splines.splines import Spline1D
     s = Spline1D(sp.b)
-    c = sp.wrap(np.array([rng.uniform(-2, 2) for _ in range(sp.ncoef)]))
+    c = np.array([rng.uniform(-2, 2) for _ in range(sp.ncoef)])
+    # on every other periodic space the caller fills ALL the ncells + degree coefficients the object exposes, without making the last
+    # `degree` of them images of the first ones: the value is still the combination of the B-splines on the extended knot vector with
+    # the coefficients as they are, and an evaluation reads the coefficients, it does not write them
+    CHECK_1D_COUNT[0] += 1
+    unwrapped = sp.periodic and CHECK_1D_COUNT[0] % 2 == 0
+    if not unwrapped:
+        c = sp.wrap(c)
     s.coeffs[:] = c
     xs = sp.xs(rng, nrand)
     cmax = float(np.max(np.abs(c)))
-    base = {'space': sp.desc(), 'coeffs_hex': hxs(c)}
+    base = {'space': sp.desc(), 'coeffs_hex': hxs(c), 'periodic_images_filled_by_caller': not unwrapped}
     factor = 32.0 * (sp.deg + 2)
     held = []        # arrays returned by the array entry point, kept by the caller while the spline is evaluated again
     for der in (0, 1):
@@ -360,6 +370,10 @@ def check_1d(chk, drv, sp, rng, nrand):
                              'model': float(Fr(mo['ys'][k]))} if (k == 3 and der == 1) else None)
         chk.count('1-D %s deg=%d %s %s' % ('cubic-uniform' if sp.cu else 'general', sp.deg,
                                              'periodic' if sp.periodic else 'clamped', sp.kind), len(xs))
+        if not np.array_equal(np.asarray(s.coeffs), c):
+            chk.fail('C07:coefficients-modified', 'evaluating a 1-D spline (der=%d) changed its coefficient vector' % der, case0,
+                     expected=[float(v) for v in c], actual=[float(v) for v in np.asarray(s.coeffs)])
+            s.coeffs[:] = c
     # the same Spline1D object after its coefficients were overwritten IN PLACE (what every compute_interpolant does): values and
     # derivatives are those of the new coefficients (nothing derived from the old ones may be kept)
     c2 = sp.wrap(np.array([rng.uniform(-2, 2) for _ in range(sp.ncoef)]))
@@ -384,7 +398,7 @@ def check_1d(chk, drv, sp, rng, nrand):
     chk.count('1-D re-evaluation after in-place change of the coefficients')
     s.coeffs[:] = c
     # periodic: equal values (p >= 1) and slopes (p >= 2) at both ends of the period
-    if sp.periodic:
+    if sp.periodic and not unwrapped:
         for der in ((0, 1) if sp.deg >= 2 else (0,)):
             case = dict(base, der=der, entry='periodic ends')
             v = guarded(chk, 'Spline1D.eval(scalar)', case, lambda: (s.eval(sp.a, der), s.eval(sp.bnd, der)))
@@ -749,6 +763,43 @@ def check_2d(chk, drv, s1, s2, rng, npts):
 # ----------------------------------------------------------------------------------------------
 # exact oracle for the failing-input search: Cox-de Boor in fractions (independent of the Lean model)
 
+def check_2d_mixed(chk, sa, sb, rng):
+    """a 2-D spline whose two directions are of different kinds (one uniform cubic = fast path, one general): today the constructor refuses
+    the pair (assert); if it is ever accepted, the values must be the tensor-product spline with EACH direction on the knot vector its own
+    1-D path uses (a clamped uniform-cubic direction lives on the uniformly continued knots, not on clamped ones)"""
+    from pygyro.splines.splines import Spline2D
+    for s1, s2 in ((sa, sb), (sb, sa)):
+        case = {'space1': s1.desc(), 'space2': s2.desc(), 'entry': 'Spline2D of a uniform-cubic and a general direction'}
+        try:
+            S = Spline2D(s1.b, s2.b)
+        except (AssertionError, NotImplementedError, ValueError, TypeError):
+            chk.count('2-D mixed kinds: refused by the constructor')
+            continue
+        C = np.array([[rng.uniform(-2, 2) for _ in range(s2.ncoef)] for _ in range(s1.ncoef)])
+        if s1.periodic:
+            C[s1.nc:s1.nc + s1.deg, :] = C[0:s1.deg, :]
+        if s2.periodic:
+            C[:, s2.nc:s2.nc + s2.deg] = C[:, 0:s2.deg]
+        S.coeffs[:, :] = C
+        X, Y = pick2d(s1, rng, 6), pick2d(s2, rng, 6)
+        cmax = float(np.max(np.abs(C)))
+        for d1, d2 in ((0, 0), (1, 0), (0, 1)):
+            ref = s1.ref_matrix(X, d1) @ C @ s2.ref_matrix(Y, d2).T
+            osc = s1.oscale(1.0, d1) * s2.oscale(1.0, d2) * cmax
+            for i, x in enumerate(X):
+                for j, y in enumerate(Y):
+                    if (d1 and s1.deg == 1 and not s1.discont_ok(x)) or (d2 and s2.deg == 1 and not s2.discont_ok(y)):
+                        continue
+                    c = dict(case, der1=d1, der2=d2, x=float(x), y=float(y))
+                    v = guarded(chk, 'Spline2D.eval(scalar)', c, lambda: float(S.eval(float(x), float(y), d1, d2)))
+                    if v is None:
+                        return
+                    cmp_oracle(chk, 'C07:Spline2D-mixed-kinds', 'a 2-D spline with one uniform-cubic and one general direction was accepted and differs from '
+                               'the tensor product of the two 1-D bases', c, v, float(ref[i, j]), osc)
+                    chk.case(('2dmixed', s1.key(), s2.key(), d1, d2, i, j), nontrivial=True)
+        chk.count('2-D mixed kinds: accepted and compared')
+
+
 def exact_basis(t, p, x, nu):
     """all N_{i,p}^{(nu)}(x), i < len(t)-p-1, as Fractions; right-continuous, left limit at the right end"""
     n = len(t) - p - 1
@@ -938,6 +989,13 @@ def run(chk):
                 if s1 is None or s2 is None:
                     continue
                 check_2d(chk, drv, s1, s2, rng, chk.n(5, 7))
+            # one uniform-cubic and one general direction (clamped / periodic cubic x any degree)
+            for k in range(chk.n(4, 12)):
+                sa = random_space(chk, 3, periodic=bool(k % 2), kind=KINDS[0])
+                sb = random_space(chk, [5, 2, 3, 4][k % 4], force_general=True)
+                if sa is None or sb is None or not sa.cu or sb.cu:
+                    continue
+                check_2d_mixed(chk, sa, sb, rng)
             # 2-D spaces with ONE clamped cell in one direction (a Bezier direction: the local coefficient block is the whole row / column)
             for k in range(chk.n(4, 16)):
                 dA, dB = [1, 2, 3, 4][k % 4], rng.randint(1, 4)
